@@ -346,6 +346,15 @@ def _mk_tile_compressor(
     )
 
 
+def _has_chunks(data: Any, chunks: Tuple[int, ...]) -> bool:
+    # ``data.chunksize`` is the LARGEST chunk per axis: irregular chunks whose largest
+    # member equals the tile size are not tile aligned
+    return all(
+        all(c == n for c in cc[:-1]) and 0 < cc[-1] <= n
+        for cc, n in zip(data.chunks, chunks)
+    )
+
+
 def _compress_cog_tile(encoder, block, idx):
     return [(encoder(block), idx)]
 
@@ -384,12 +393,12 @@ def _compress_tiles(
             # else have 1 chunk per "sample"
             _chunks = (1, *meta.tile.yx)
 
-        if data.chunksize != _chunks:
+        if not _has_chunks(data, _chunks):
             data = data.rechunk(_chunks)
     else:
         assert meta.num_planes == 1
         src_ydim = 0
-        if data.chunksize != meta.chunks:
+        if not _has_chunks(data, meta.chunks):
             data = data.rechunk(meta.chunks)
 
     encoder = _mk_tile_compressor(meta, sample_idx)
